@@ -1042,7 +1042,7 @@ fn enumerate_stops(t: &Triple, only_k: Option<u64>, l: &mut Local, max_polls: u6
             l.feat("stop_nodes_captured");
             let root_len = g.history.len();
             let mut walked = 0;
-            while w.history.len() >= root_len && walked < 40 {
+            while w.history.len() >= root_len && walked < 16 {
                 let pa = game_to_ref(&w);
                 let legal_a = pa.legal_moves();
                 if !legal_a.is_empty() && pa.is_legal_position() {
@@ -1158,7 +1158,7 @@ pub fn run_c09(args: &Args, seed: u64, tier: &str, report: &Report) -> String {
         report.merge_local(&mut l);
         return rule.into();
     }
-    let triples = args.u64("--triples", if thorough { 3_000 } else { 130 });
+    let triples = args.u64("--triples", if thorough { 1_200 } else { 130 });
     let max_polls = if thorough { 150 } else { 70 };
     let roots = corpus_roots();
     run_shards(16, 512, |shard| {
